@@ -391,6 +391,19 @@ def oracle_trace(R, ex):
             out.append(('trace', 'code ran but execute_once returned None: %r' % (ex.log,)))
         return out
     T = R.T
+    # the summary properties of the MacroStep are the concatenation of what its micro steps say
+    st = ex.step
+    agg = ([x for ms in st.steps for x in ms.entered_states], [x for ms in st.steps for x in ms.exited_states],
+           [id(ms.transition) for ms in st.steps if ms.transition is not None],
+           [id(e) for ms in st.steps for e in ms.sent_events],
+           next((id(ms.event) for ms in st.steps if ms.event is not None), None))
+    got = (list(st.entered_states), list(st.exited_states), [id(t) for t in st.transitions],
+           [id(e) for e in st.sent_events], id(st.event) if st.event is not None else None)
+    if agg != got:
+        i = next(k for k in range(5) if agg[k] != got[k])
+        out.append(('trace', 'MacroStep.%s does not summarise its micro steps: %r'
+                    % (('entered_states', 'exited_states', 'transitions', 'sent_events', 'event')[i],
+                       (st.entered_states, st.exited_states, st.transitions, st.sent_events, st.event)[i])))
     exp = []
     for ms in ex.step.steps:
         exp += [('ex', x) for x in ms.exited_states]
@@ -503,9 +516,12 @@ def oracle_order(R, ex):
         cur = (cur - set(exs)) | set(main.entered_states)
         default_entered = []
         for sm in stabs:
-            for x in sm.exited_states:
+            for i, x in enumerate(sm.exited_states):
                 if T.kind(x) not in HIST and not (T.kind(x) == 'F' or x == T.root):
                     out.append(('order', '%s: stabilisation exited %s' % (td, x)))
+                later = [d for d in sm.exited_states[i + 1:] if d in T.desc(x)]
+                if later:       # also when the statechart terminates: the final state is left before the root
+                    out.append(('order', '%s: stabilisation exited %s before its descendants %s' % (td, x, later)))
                 cur.discard(x)
             default_entered += sm.entered_states
             out += _entry_constraints(T, sm.entered_states, cur, td)
